@@ -238,12 +238,15 @@ theorem shlPass_tight (s : Nat) (A A' : Arr) (h : shlPass s A = some A') (hl : A
 /-! ### the state invariant of the limb-level run -/
 
 /-- a work array in the state the loops of to_double keep it in -/
-structure Good (A : Arr) : Prop where
+structure GoodL (L : Nat) (A : Arr) : Prop where
   wf : WF A
-  len : A.digits.length = BIGNUM_DIGITS
-  lsd : A.lsd < BIGNUM_DIGITS
+  len : A.digits.length = L
+  lsd : A.lsd < L
   ord : A.msd ≤ A.lsd + 1
   pos : natOfLimbs A.digits ≠ 0
+
+/-- the invariant for to_double's array -/
+abbrev Good (A : Arr) : Prop := GoodL BIGNUM_DIGITS A
 
 theorem nonzero_between (A : Arr) (wf : WF A) (hpos : natOfLimbs A.digits ≠ 0) :
     ∃ j, A.msd ≤ j ∧ j ≤ A.lsd ∧ A.digits.getD j 0 ≠ 0 := by
@@ -256,8 +259,8 @@ theorem nonzero_between (A : Arr) (wf : WF A) (hpos : natOfLimbs A.digits ≠ 0)
     · exact absurd (wf.zhi j h) hj
     · exact h
 
-theorem shlPass_good (s : Nat) (A A' : Arr) (h : shlPass s A = some A') (g : Good A) :
-    Good A' ∧ natOfLimbs A'.digits = natOfLimbs A.digits * pow2 s ∧ Tight A' := by
+theorem shlPass_good {L : Nat} (s : Nat) (A A' : Arr) (h : shlPass s A = some A') (g : GoodL L A) :
+    GoodL L A' ∧ natOfLimbs A'.digits = natOfLimbs A.digits * pow2 s ∧ Tight A' := by
   have hl : A.lsd < A.digits.length := by rw [g.len]; exact g.lsd
   obtain ⟨hv, hlen, wf'⟩ := shlPass_spec s A A' h g.wf g.ord hl
   have hpos' : natOfLimbs A'.digits ≠ 0 := by
@@ -281,9 +284,9 @@ theorem shlPass_good (s : Nat) (A A' : Arr) (h : shlPass s A = some A') (g : Goo
     omega
   · omega
 
-theorem shrPass_good (s : Nat) (A A' : Arr) (h : shrPass 0 s A = some A') (g : Good A) :
-    Good A' ∧ natOfLimbs A'.digits * pow2 s = natOfLimbs A.digits := by
-  obtain ⟨hv, hlen, wf', hl', hl2⟩ := shrPass_spec 0 s A A' h g.wf g.ord
+theorem shrPass_good {L : Nat} (extra s : Nat) (A A' : Arr) (h : shrPass extra s A = some A') (g : GoodL L A) :
+    GoodL L A' ∧ natOfLimbs A'.digits * pow2 s = natOfLimbs A.digits := by
+  obtain ⟨hv, hlen, wf', hl', hl2⟩ := shrPass_spec extra s A A' h g.wf g.ord
   have hpos' : natOfLimbs A'.digits ≠ 0 := by
     intro h0
     rw [h0, Nat.zero_mul] at hv
@@ -581,7 +584,7 @@ theorem shrLoop_spec (rs : Int) : ∀ (fuel : Nat) (A : Arr) (e : Int) (r : Arr 
       | some A' =>
         rw [hp] at h
         simp only at h
-        obtain ⟨g', hv⟩ := shrPass_good _ A A' hp g
+        obtain ⟨g', hv⟩ := shrPass_good 0 _ A A' hp g
         have hsh : ((min BDIG_PER_DIG (rs - e).toNat : Nat) : Int) ≤ rs - e := by
           have : min BDIG_PER_DIG (rs - e).toNat ≤ (rs - e).toNat := Nat.min_le_right _ _
           omega
